@@ -1429,3 +1429,30 @@ package scipipe
 //@   ensures no-regular-file[C17]: effCreated == old(effCreated) && effRenamed == old(effRenamed)
 
 // The Go statement `go t.Execute()`: one more task execution has been started.
+
+//@ define wfRunPorts(p *Process) bool = !("" in p.PathFuncs) && (forall o string :: o in p.PathFuncs ==> o in p.outPorts && p.outPorts[o] != nil && wfOutPort(p.outPorts[o])) && (forall o1 string, o2 string :: o1 in p.PathFuncs && o2 in p.PathFuncs && o1 != o2 ==> p.outPorts[o1] != p.outPorts[o2])
+//@ define streamPort(p *Process, o string) bool = o in p.PortInfo && p.PortInfo[o].doStream
+// T(x): the x-th task received from the process's task channel (prophecy sequence of the single receiver)
+//@ define taskAt(p *Process, x int) *Task = chanInAt(curTasks[p], x)
+//@ define nRecv(p *Process) int = chanRecvN(curTasks[p])
+
+//@ func (*Process).Run(p)
+//@   props C04 C05 C07 C08 C09 C17
+//@   requires wf: wfProcess(p) && wfRunPorts(p)
+//@   modifies *
+//@   atcall (*Process).createTasks oversize-rejected-before-any-task[C07]: p.CoresPerTask <= chanCap(p.workflow.concurrentTasks) && execSpawned == old(execSpawned)
+//@   atgo (*Task).Execute the-task-just-received[C04]: $arg0 == t && taskOK(t) && t.Process == p
+//@   atgo (*Task).Execute fifos-ready-before-start[C17]: forall o string :: o in t.OutIPs && t.OutIPs[o].doStream ==> $visited1[o]
+//@   atcall (*FileIP).CreateFifo refuse-existing-fifo[C03,C17]: !statOK(fsEpoch, oip.path + ".fifo")
+//@   atcall (*BaseProcess).CloseOutPorts closes-only-when-all-done[C05]: tasks == nil && len(startedTasks) == 0
+//@   loop 0 invariant wf: wfProcess(p) && wfRunPorts(p) && curTasks[p] != nil && taskChanOwner(curTasks[p]) == p
+//@   loop 0 invariant chan: tasks == nil || tasks == curTasks[p]
+//@   loop 0 invariant closed-seen: tasks == nil ==> nRecv(p) == chanTotal(curTasks[p])
+//@   loop 0 invariant queue-len: 0 <= len(startedTasks) && len(startedTasks) <= nRecv(p)
+//@   loop 0 invariant queue-is-fifo[C08]: forall j int :: 0 <= j && j < len(startedTasks) ==> startedTasks[j] == taskAt(p, nRecv(p) - len(startedTasks) + j)
+//@   loop 0 invariant queue-ok: forall j int :: 0 <= j && j < len(startedTasks) ==> taskOK(startedTasks[j]) && startedTasks[j].Process == p
+//@   loop 0 invariant one-execute-per-task[C04]: execSpawned == old(execSpawned) + nRecv(p)
+//@   loop 0 invariant forwarded-in-arrival-order[C04,C08]: forall o string :: o in p.PathFuncs && !streamPort(p, o) ==> outN[p.outPorts[o]] == old(outN)[p.outPorts[o]] + nRecv(p) - len(startedTasks) && (forall x int :: 0 <= x && x < nRecv(p) - len(startedTasks) ==> outAt[p.outPorts[o]][old(outN)[p.outPorts[o]] + x] == taskAt(p, x).OutIPs[o])
+//@   loop 0 invariant streamed-at-start[C17]: forall o string :: o in p.PathFuncs && streamPort(p, o) ==> outN[p.outPorts[o]] == old(outN)[p.outPorts[o]] + nRecv(p)
+//@   ensures every-task-forwarded[C04,C05]: forall o string :: o in p.PathFuncs && !streamPort(p, o) ==> outN[p.outPorts[o]] == old(outN)[p.outPorts[o]] + chanTotal(curTasks[p])
+//@   ensures one-execute-per-task[C04]: execSpawned == old(execSpawned) + chanTotal(curTasks[p])
